@@ -421,3 +421,143 @@ def exit_to_else(stmts):
             break
     return stmts
 
+
+def sink_optional_tail(stmts):
+    """In place.  `V = None; <if/else structure whose arms may bind V>; if V is not None: TAIL`  ->  TAIL appended to every innermost
+    block that binds V (and removed after the structure), when each such block is in tail position of the structure -- then nothing
+    runs between the binding and TAIL in the original either, and the paths that leave V unbound skip TAIL as before.  Returns True
+    when the rewrite was applied."""
+    for i, st in enumerate(stmts):
+        for f in ('body', 'orelse'):
+            sub = getattr(st, f, None)
+            if isinstance(sub, list) and sub and isinstance(sub[0], ast.stmt) and not isinstance(st, (ast.FunctionDef, ast.ClassDef)):
+                if sink_optional_tail(sub):
+                    return True
+    for i, st in enumerate(stmts[:-2]):
+        if not (isinstance(st, ast.Assign) and len(st.targets) == 1 and isinstance(st.targets[0], ast.Name) and isinstance(st.value, ast.Constant) and st.value.value is None):
+            continue
+        V = st.targets[0].id
+        S, T = stmts[i + 1], stmts[i + 2]
+        if not (isinstance(S, ast.If) and isinstance(T, ast.If) and not T.orelse and unparse(T.test).replace(' ', '') == f'{V}isnotNone'):
+            continue
+        if any(isinstance(n, ast.Name) and n.id == V for x in stmts[i + 3:] for n in ast.walk(x)):
+            continue
+        blocks = []
+
+        def tails(block, in_tail):
+            """collect the blocks that bind V directly; every one must be reached through tail positions only"""
+            ok = True
+            for k, x in enumerate(block):
+                last = k == len(block) - 1
+                binds_here = isinstance(x, ast.Assign) and any(isinstance(t, ast.Name) and t.id == V for t in x.targets)
+                if binds_here:
+                    if not in_tail:
+                        return False
+                    if block not in blocks:
+                        blocks.append(block)
+                elif isinstance(x, ast.If):
+                    ok = tails(x.body, in_tail and last) and tails(x.orelse, in_tail and last) and ok
+                elif any(isinstance(n, ast.Name) and n.id == V and isinstance(n.ctx, ast.Store) for n in ast.walk(x)):
+                    return False
+            return ok
+        if not (tails(S.body, True) and tails(S.orelse, True)) or not blocks:
+            continue
+        for b in blocks:
+            for x in T.body:
+                c = clone_pos(x)
+                b.append(c)
+                owner = getattr(b[0], '_parent', None)
+                c._parent = owner
+                for n_ in ast.walk(c):
+                    for ch in ast.iter_child_nodes(n_):
+                        ch._parent = n_
+        del stmts[i + 2]
+        del stmts[i]
+        return True
+    return False
+
+
+def sink_bindings(stmts):
+    """In place, recursively.  An `if c: a = X1; b = Y1 else: a = X2; b = Y2` whose arms only bind the same local names to pure values
+    (names, constants, subscripts of names by constants, tuples of those), followed by the rest R of the block, which is the only reader
+    of those names  ->  `if c: R[a := X1, b := Y1] else: R[a := X2, b := Y2]`  (`*b` in a call is replaced by the elements of the tuple).
+    Tail duplication with substitution of pure values: the same calls with the same arguments on every path."""
+    def pure(v):
+        if isinstance(v, (ast.Name, ast.Constant)):
+            return True
+        if isinstance(v, ast.Attribute):
+            return pure(v.value)
+        if isinstance(v, ast.Subscript):
+            return isinstance(v.value, ast.Name) and isinstance(v.slice, ast.Constant)
+        if isinstance(v, ast.Tuple):
+            return all(pure(e) for e in v.elts)
+        return False
+
+    def arm_binds(block):
+        out = {}
+        for x in block:
+            if isinstance(x, ast.Assign) and len(x.targets) == 1 and isinstance(x.targets[0], ast.Name) and pure(x.value) and x.targets[0].id not in out:
+                out[x.targets[0].id] = x.value
+            else:
+                return None
+        return out
+    changed = True
+    while changed:
+        changed = False
+        for i, st in enumerate(stmts):
+            if not (isinstance(st, ast.If) and st.orelse and i + 1 < len(stmts)):
+                continue
+            a, b = arm_binds(st.body), arm_binds(st.orelse)
+            if not a or not b or set(a) != set(b):
+                continue
+            names = set(a)
+            rest = stmts[i + 1:]
+            if any(isinstance(n, ast.Name) and n.id in names and isinstance(n.ctx, ast.Store) for x in rest for n in ast.walk(x)):
+                continue
+            if not any(isinstance(n, ast.Name) and n.id in names for x in rest for n in ast.walk(x)):
+                continue
+            # the bound values must not be changed by the rest before they are used: require that the rest stores none of the names they read
+            reads = {n.id for v in list(a.values()) + list(b.values()) for n in ast.walk(v) if isinstance(n, ast.Name)}
+            if any(isinstance(n, ast.Name) and n.id in reads and isinstance(n.ctx, ast.Store) for x in rest for n in ast.walk(x)):
+                continue
+
+            def inst(binds):
+                class S(ast.NodeTransformer):
+                    def visit_Call(self, c):
+                        c = self.generic_visit(c)
+                        args = []
+                        for x in c.args:
+                            if isinstance(x, ast.Starred) and isinstance(x.value, ast.Tuple):
+                                args.extend(x.value.elts)
+                            else:
+                                args.append(x)
+                        c.args = args
+                        return c
+
+                    def visit_Name(self, n):
+                        if isinstance(n.ctx, ast.Load) and n.id in binds:
+                            return ast.copy_location(clone_pos(binds[n.id]), n)
+                        return n
+                out = []
+                for x in rest:
+                    c = S().visit(clone_pos(x))
+                    ast.fix_missing_locations(c)
+                    out.append(c)
+                return out
+            st.body, st.orelse = inst(a), inst(b)
+            del stmts[i + 1:]
+            for blk in (st.body, st.orelse):
+                for x in blk:
+                    x._parent = st
+                    for n_ in ast.walk(x):
+                        for ch in ast.iter_child_nodes(n_):
+                            ch._parent = n_
+            changed = True
+            break
+    for st in stmts:
+        for f in ('body', 'orelse', 'finalbody'):
+            sub = getattr(st, f, None)
+            if isinstance(sub, list) and sub and isinstance(sub[0], ast.stmt) and not isinstance(st, (ast.FunctionDef, ast.ClassDef)):
+                sink_bindings(sub)
+    return stmts
+
